@@ -317,6 +317,16 @@ def proof_layer(res, pid, theory_files):
     res.cov["checker_cmd"] = "make -C /verif/coq (coq_makefile, coqc 8.16.1, full .vo) && coqc theories/Properties/%s.v (Print Assumptions)" % pid
     res.cov["trusted_base"] = TRUSTED_BASE
     res.cov["audit_problems"] = problems
+    if ok and tok and res.tier == "thorough":
+        # independent re-check of the compiled theorems and everything they depend on
+        rc, out = sh(["coqchk", "-o", "-silent", "-Q", "theories", "Jbk", "Jbk.Properties.%s" % pid], cwd=COQ, timeout=1500)
+        summary = out[out.find("CONTEXT SUMMARY"):] if "CONTEXT SUMMARY" in out else out[-800:]
+        clean = rc == 0 and all(("* %s: <none>" % k) in summary for k in (
+            "Axioms", "Constants/Inductives relying on type-in-type", "Constants/Inductives relying on unsafe (co)fixpoints",
+            "Inductives whose positivity is assumed"))
+        res.cov["coqchk"] = "coqchk -o -silent Jbk.Properties.%s: %s" % (pid, "no axiom, no type-in-type, no unsafe fixpoint, no assumed positivity" if clean else "NOT CLEAN")
+        if not clean:
+            problems.append("coqchk: " + " ".join(summary.split())[:600])
     if not ok or not tok or problems:
         body = "proof layer does not check for %s\n" % pid
         body += "\n".join(problems) + "\n" + (log[-3000:] if not ok else tlog[-3000:])
